@@ -11,6 +11,7 @@ tools/rs2lean_fn.py — regenerates Lean definitions from the SOURCE TEXT of sel
   fn:snf      /repo/yui-matrix/src/dense/snf.rs                    -> lean/Yuiv/Gen/SnfFn.lean      (Props/C09Gen.lean)
   fn:lll      /repo/yui-matrix/src/dense/lll.rs                    -> lean/Yuiv/Gen/LllFn.lean      (Props/C10Gen.lean)
   fn:homcalc  /repo/yui-homology/src/utils/homology_calc.rs        -> lean/Yuiv/Gen/HomCalcFn.lean  (Props/C07Gen.lean)
+  fn:triang   /repo/yui-matrix/src/sparse/triang.rs                -> lean/Yuiv/Gen/TriangFn.lean   (Props/C12Gen.lean)
 
 Additions for fn:misc / fn:snf (see the target entries in TARGETS and Yuiv/Model/RustIter.lean, RustDense.lean):
 free functions of a file (`free_fns`), closures as auxiliary definitions (captured variables become parameters),
@@ -80,7 +81,7 @@ Semantics emitted
     on fuel (`Res.err` when it runs out): the constant `loopFuel`, or — target option `fuel_param` — an explicit first
     argument `fuel` of every function that (transitively) contains a loop.
 
-Usage: rs2lean_fn.py [fn:bitseq|fn:ratio|fn:intext|fn:qint|fn:ff|fn:misc|fn:snf|fn:lll|fn:homcalc]... [--src FILE]... [--out FILE]   (none = all)
+Usage: rs2lean_fn.py [fn:bitseq|fn:ratio|fn:intext|fn:qint|fn:ff|fn:misc|fn:snf|fn:lll|fn:homcalc|fn:triang]... [--src FILE]... [--out FILE]   (none = all)
   `--src` (once per source file of the target, in its order) and `--out` need exactly one target.
 Exit status 0: every selected generated file is up to date or was rewritten; 1: for some target something in a
 REQUIRED function (or in the item structure) is outside the subset — `rs2lean_fn: cannot translate: <what>` is printed
@@ -236,6 +237,27 @@ TARGETS = {
                "specification is property C09); panics are `Res.panic`.",
                "`Yuiv/Props/C07Gen.lean` proves them equal to the hand-written model `Yuiv/Model/C07Calc.lean`."],
         required=_req("HomologyCalc", ("calculate", "trivial_result", "process_snf", "result", "trans"))),
+    "triang": dict(
+        src="/repo/yui-matrix/src/sparse/triang.rs", out="TriangFn.lean", ns="Yuiv.GenTriang", scalar="S",
+        macros=False, fuel_param=True, nat_usize=True, csc=True, free_fns=True, mut_params=True, no_derive=True,
+        full_consumers=["from_col_vecs"],
+        imports=["Yuiv.Model.Res", "Yuiv.Model.RustArith", "Yuiv.Model.RustRing", "Yuiv.Model.RustDense",
+                 "Yuiv.Model.RustCsc"],
+        blurb=["The sequential core of yui-matrix/src/sparse/triang.rs: `TriangularType::{is_upper, tranpose}` and the free",
+               "functions `inv_triangular`, `solve_triangular`, `solve_triangular_left`, `solve_triangular_vec`,",
+               "`solve_triangular_s`, `_solve_triangular`, `collect_diag`, `copy_into`.  Cargo features are OFF: of every",
+               "`cfg_if!` the non-`multithread` branch is taken and `solve_triangular_m` is dropped (Props/C12.lean proves that",
+               "the result does not depend on the assignment of columns to worker buffers).",
+               "`R` is a type `α` with the model's operations `[C12.Scal α]`; `SpMat<R>` is the model's CSC content `C12.SpMat α`,",
+               "`SpVec<R>` its dimension and stored entries (`SVec α`), `Vec<R>` / `[R]` a dense `Array α` (index panics kept),",
+               "any other `Vec<T>` a list; a `&mut` parameter is returned together with the value; the lazily consumed",
+               "`(0..k).map(|j| …)` that fills and empties the scratch buffer is the sequential fold `Loop.mapRange`; the CSC",
+               "primitives are the functions of Yuiv/Model/RustCsc.lean; `debug_assert!` is an `assert!` (debug build).",
+               "`Yuiv/Props/C12Gen.lean` proves them equal to the hand-written model `Yuiv/Model/C12.lean`."],
+        required=[("TriangularType", None, "is_upper"), ("TriangularType", None, "tranpose")] +
+                 [("triang", None, n) for n in ("inv_triangular", "solve_triangular", "solve_triangular_left",
+                                                "solve_triangular_vec", "solve_triangular_s", "_solve_triangular",
+                                                "collect_diag", "copy_into")]),
     "intext": dict(
         src=["/repo/yui/src/misc/int_ext.rs", "/repo/yui/src/abst/euc_ring.rs"], out="IntExtFn.lean",
         ns="Yuiv.GenIntExt", scalar="Z", macros=True, fuel_param=True,
@@ -260,6 +282,15 @@ SCALAR_BOUNDS_LLL = {"LLLRing", "LLLRingOps", "DivRound"}
 
 class Unsupported(Exception):
     pass
+
+
+TYBIND = {}        # element types of `vec![]` locals determined by their first `push` (per function)
+
+
+def resolve_ty(t):
+    """substitute the determined element types `?k`"""
+    if "?" not in t: return t
+    return re.sub(r"\?\d+", lambda m: resolve_ty(TYBIND[m.group(0)]) if m.group(0) in TYBIND else m.group(0), t)
 
 
 # ------------------------------------------------------------------------------------------------ tokenizer
@@ -376,6 +407,8 @@ NOOP_MACROS = {"trace", "debug", "info", "warn", "log::trace", "log::debug", "lo
 
 
 class Parser:
+    turbofish = False     # accept (and ignore) `.method::<T>(..)`
+    features = set()      # enabled cargo features (none: every `cfg(feature = "..")` item / branch is dropped)
     const_generics = False      # target option: `const D: i32` parameters are value parameters
 
     def __init__(self, toks, pos=0, end=None):
@@ -437,6 +470,10 @@ class Parser:
             s, e = self.skip_balanced()
             if e > s and self.t[s].val == "derive":
                 derives += [t.val for t in self.t[s + 1:e] if t.kind == "id"]
+            vals = [t.val for t in self.t[s:e]]
+            if len(vals) == 6 and vals[:4] == ["cfg", "(", "feature", "="] and vals[5] == ")" and \
+                    self.t[s + 4].kind == "str" and self.t[s + 4].val.strip('"') not in Parser.features:
+                self.cfg_off = self.t[s + 4].val.strip('"')        # `#[cfg(feature = "X")]` with the feature X off
         return derives
 
     # -- types: returns a normalised string, references / lifetimes / `mut` erased
@@ -722,7 +759,7 @@ class Parser:
             return N("un", op=t.val, e=self.unary(nostruct), line=t.line)
         if t.kind == "p" and t.val in ("&", "&&"):
             self.next()
-            if self.eat("mut"): raise Unsupported(f"`&mut` borrow expression (line {t.line})")
+            if self.eat("mut"): return N("un", op="&mut", e=self.unary(nostruct), line=t.line)
             return N("un", op="&", e=self.unary(nostruct), line=t.line)
         return self.postfix(self.primary(nostruct), nostruct)
 
@@ -747,7 +784,9 @@ class Parser:
                 if nt.kind == "id" and nt.val == "await": raise Unsupported("await")
                 self.next()
                 name = self.ident()
-                if self.at("::"): raise Unsupported(f"turbofish on method `{name}` (line {t.line})")
+                if self.at("::"):
+                    if not (Parser.turbofish and self.at("<", 1)): raise Unsupported(f"turbofish on method `{name}` (line {t.line})")
+                    self.next(); self.generic_args()          # the explicit type arguments are not needed: types are inferred
                 if self.at("("):
                     e = N("mcall", recv=e, name=name, args=self.args(), line=t.line)
                 else:
@@ -869,11 +908,25 @@ class Parser:
         if kw == "for":
             self.next()
             if self.at("mut"): raise Unsupported(f"`for mut` pattern (line {t.line})")
-            var = "_" if self.eat("_") else self.ident()
+            tpat = None
+            if self.at("("):                  # flat tuple pattern `for (i, a) in …`: `for it_ in … { let (i, a) = it_; … }`
+                self.next(); tpat = []
+                while not self.at(")"):
+                    self.eat("&")
+                    tpat.append(("_" if self.eat("_") else self.ident(), False))
+                    if not self.eat(","): break
+                self.expect(")")
+                var = f"it_{t.line}"
+            else:
+                var = "_" if self.eat("_") else self.ident()
             if not self.at("in"): raise Unsupported(f"`for` with a non-identifier pattern (line {t.line})")
             self.next()
             it = self.expr(nostruct=True)
-            return N("for", var=var, it=it, body=self.block(), line=t.line)
+            body = self.block()
+            if tpat is not None:
+                body.stmts.insert(0, N("let", name=None, mut=False, ty=None, init=N("path", segs=[var], line=t.line),
+                                       line=t.line, pat=tpat, els=None))
+            return N("for", var=var, it=it, body=body, line=t.line)
         if kw == "loop":
             self.next()
             return N("loop", body=self.block(), line=t.line)
@@ -898,6 +951,13 @@ class Parser:
         if self.at("!"):
             self.next()
             s, e = self.skip_balanced()
+            if segs == ["cfg_if", "cfg_if"]:
+                return self.cfg_if(s, e, t.line)
+            if segs == ["vec"] and any(x.kind == "p" and x.val == ";" for x in self.t[s:e]):
+                q = Parser(self.t, s, e)
+                x_ = q.expr(); q.expect(";"); n_ = q.expr()
+                if q.i < q.end: raise Unsupported(f"`vec![x; n]` (line {t.line})")
+                return N("macro", name="vec", args=[x_, n_], repeat=True, line=t.line)
             return N("macro", name="::".join(segs), args=self.macro_args(s, e), line=t.line)
         if self.at("{") and not nostruct and (segs[-1][0].isupper()):
             self.next()
@@ -911,6 +971,26 @@ class Parser:
             self.expect("}")
             return N("struct", path=segs, fields=fields, line=t.line)
         return N("path", segs=segs, line=t.line)
+
+    def cfg_if(self, s, e, line):
+        """`cfg_if! { if #[cfg(feature = "X")] { A } else { B } }` in expression position: the branch selected by the
+        enabled features (Parser.features), as a block expression"""
+        q = Parser(self.t, s, e)
+        q.expect("if")
+        q.cfg_off = None
+        q.skip_attrs()
+        if q.cfg_off is None and not (q.i > s + 1):
+            raise Unsupported(f"`cfg_if!` of this form (line {line})")
+        off = q.cfg_off is not None
+        # the attribute must be a plain `cfg(feature = "..")`
+        vals = [x.val for x in self.t[s + 1:q.i]]
+        if len(vals) < 4 or vals[:2] != ["#", "["] or vals[2:6] != ["cfg", "(", "feature", "="]:
+            raise Unsupported(f"`cfg_if!` with a condition other than `feature = \"..\"` (line {line})")
+        a = q.block()
+        if not q.eat("else") or q.at("if"): raise Unsupported(f"`cfg_if!` without a plain `else` branch (line {line})")
+        b = q.block()
+        if q.i < q.end: raise Unsupported(f"`cfg_if!` of this form (line {line})")
+        return b if off else a
 
     def macro_args(self, s, e):
         """comma-separated expressions of a macro invocation; a leading string literal argument ends the list
@@ -998,6 +1078,8 @@ class Fn:
         self.impl_full = None        # full text of the impl's self type (`QuadInt<I,-1>`, `GaussInt<I>` …)
         self.assoc = {}              # associated types of the impl
         self.order = 0
+        self.mutparams = []          # names of the `&mut` parameters
+        self.generic_is_mut = False  # the only reason in self.generic is a `&mut` parameter
 
     @property
     def key(self):
@@ -1096,6 +1178,7 @@ def parse_items(toks, mod=None, macros=False, depth=0, modname=None):
             else:
                 k += 1
     while p.peek().kind != "eof":
+        p.cfg_off = None
         derives = p.skip_attrs()
         if p.eat(";"): continue
         if p.eat("pub"):
@@ -1104,6 +1187,30 @@ def parse_items(toks, mod=None, macros=False, depth=0, modname=None):
         if t.kind != "id":
             raise Unsupported(f"unexpected `{t.val}` at item level (line {t.line})")
         kw = t.val
+        if p.cfg_off is not None and kw in ("fn", "use"):
+            p.next()
+            nm_ = p.peek().val
+            if kw == "fn":
+                while not p.at("{"): p.next()
+                p.skip_balanced()
+                mod.notes.append(f"fn {nm_}: dropped (feature \"{p.cfg_off}\" is off)")
+            else:
+                while not p.eat(";"):
+                    if p.at("{"): p.skip_balanced()
+                    else: p.next()
+            continue
+        if kw == "cfg_if" and p.at("::", 1) and p.at("cfg_if", 2) and p.at("!", 3):
+            p.next(); p.next(); p.next(); p.next()
+            p.skip_balanced(); p.eat(";")
+            mod.notes.append("cfg_if! at item level: skipped (imports only)")
+            continue
+        if kw == "const" and p.peek(1).kind == "id" and p.at(":", 2) and modname is not None:
+            p.next(); nm_ = p.ident()
+            while not p.eat(";"):
+                if p.at("{") or p.at("(") or p.at("["): p.skip_balanced()
+                else: p.next()
+            mod.notes.append(f"const {nm_}: not translated")
+            continue
         if kw == "type" and p.peek(1).kind == "id":
             p.next(); name = p.ident()
             tps = []
@@ -1249,12 +1356,14 @@ def parse_fn(p, tyname, trait, assoc, itps, ibounds, generic):
         elif p.at("self"):
             p.next(); f.selfk = "val"
         elif p.at("mut") and p.at("self", 1):
-            p.next(); p.next(); f.selfk = "val"; f.generic = f.generic or "`mut self` receiver"
+            p.next(); p.next(); f.selfk = "val"; f.generic = f.generic or "`mut self` receiver"; f.generic_is_mut = False
         else:
-            if p.eat("mut"): f.generic = f.generic or "`mut` parameter binding"
+            if p.eat("mut"): f.generic = f.generic or "`mut` parameter binding"; f.generic_is_mut = False
             nm = p.ident(); p.expect(":")
             if p.at("&") and p.at("mut", 1):
+                if f.generic is None and not f.mutparams: f.generic_is_mut = True
                 f.generic = f.generic or f"`&mut` parameter {nm}"
+                f.mutparams.append(nm)
                 p.next(); p.next()
             f.params.append((nm, p.ty()))
         if not p.eat(","): break
@@ -1501,10 +1610,19 @@ class Translator:
         self.scope_outer = set()
         self.uses_opaque = []
         self.for_ctx = None
+        self.nty = 0
+        self.cur_rest = None    # (following statements, tail) of the statement being translated
+        TYBIND.clear()
         if self.cfg.get("const_generics"): self.tag_const_impls()
 
     # -- naming / types
     def lean_ty(self, t):
+        t = resolve_ty(t)
+        if "?" in t: raise Unsupported("the element type of an empty `vec![]` is never determined")
+        if t == "S": return "α"
+        if t == "SM": return "(C12.SpMat α)"
+        if t == "SV": return "(SVec α)"
+        if t == "VS": return "(Array α)"
         if t in ("Z", "W"): return "Int"
         if t == "E": return "α"
         if t == "LM": return "LMat"
@@ -1539,6 +1657,15 @@ class Translator:
             return "(" + ",".join([self.norm_ty(ma.group(1), fn)] * int(ma.group(2))) + ")"
         if re.fullmatch(r"M<\w+,\w+>", t): return t
         if self.cfg.get("nat_usize") and t == "usize": return "usize"
+        if self.cfg.get("csc"):
+            if t in ("SM", "SV", "VS", "S"): return t
+            mc = re.fullmatch(r"(SpMat|SpVec|Vec)<(.+)>", t) or re.fullmatch(r"\[()(.+)\]", t)
+            if mc:
+                inner = self.norm_ty(mc.group(2), fn)
+                kind = mc.group(1) or "Vec"
+                if kind == "SpMat" and inner == "S": return "SM"
+                if kind == "SpVec" and inner == "S": return "SV"
+                if kind == "Vec": return "VS" if inner == "S" else f"List<{inner}>"
         if self.cfg.get("hom"):
             if t in ("HM", "HS", "HT"): return t
             mh = re.fullmatch(r"(SpMat|Mat|SnfResult|Trans|Vec)<(\w+)>", t)
@@ -1643,6 +1770,11 @@ class Translator:
 
     @staticmethod
     def compat(a, b):
+        a, b = resolve_ty(a), resolve_ty(b)
+        for x, y in ((a, b), (b, a)):
+            if re.fullmatch(r"\?\d+", x) and "?" not in y and y not in ("!", "()", "int"):
+                TYBIND[x] = y
+                return True
         if a == b or "!" in (a, b) or (a in INT64 and b in INT64 and "int" in (a, b)): return True
         if {a, b} == {"W", "int"}: return True
         if a.startswith("(") and b.startswith("(") and a != "()" and b != "()":
@@ -1650,6 +1782,8 @@ class Translator:
             return len(xs) == len(ys) and all(Translator.compat(x, y) for x, y in zip(xs, ys))
         if a.startswith("Option<") and b.startswith("Option<") and "Option<_>" in (a, b): return True
         if a.startswith("List<") and b.startswith("List<") and "List<_>" in (a, b): return True
+        if a.startswith("List<") and b.startswith("List<") and ("?" in a or "?" in b):
+            return Translator.compat(a[5:-1], b[5:-1])
         if a.startswith("Option<") and b.startswith("Option<") and a != "Option<_>" and b != "Option<_>":
             return Translator.compat(a[7:-1], b[7:-1])
         return False
@@ -1684,7 +1818,7 @@ class Translator:
         return r
 
     def translate_fn(self, f):
-        if f.generic: raise Unsupported(f.generic)
+        if f.generic and not (f.generic_is_mut and self.cfg.get("mut_params")): raise Unsupported(f.generic)
         if f.ty not in self.types and not getattr(f, "is_trait_default", False) and \
                 not getattr(f, "is_free", False) and f.ty not in self.cfg.get("scalar_types", []):
             raise Unsupported(f"impl for unknown type {f.ty}")
@@ -1710,11 +1844,21 @@ class Translator:
         for nm, t in f.params:
             t = self.norm_ty(t, f)
             ln = self.ident(nm)
-            env[nm] = (ln, t, False)
+            env[nm] = (ln, t, nm in f.mutparams)
             params.append((ln, self.lean_ty(t)))
         body = Parser(list(f.toks), f.body[0], f.body[1]).block()
         self.register_locals(f, body)
-        if f.selfk == "mut" and ret != "()":
+        if f.mutparams:
+            if f.selfk: raise Unsupported("`&mut` parameters of a method")
+            mts = [self.lean_ty(env[nm][1]) for nm in f.mutparams]
+            if ret == "()":
+                self.fn_mode = ("vars", list(f.mutparams))
+                lret = "(" + " × ".join(mts) + ")" if len(mts) > 1 else mts[0]
+            else:
+                self.fn_mode = ("mutvalp", ret, list(f.mutparams))
+                lret = "(" + " × ".join(mts + [self.lean_ty(ret)]) + ")"
+            code = self.tr_block(body, env, self.fn_mode)
+        elif f.selfk == "mut" and ret != "()":
             self.fn_mode = ("mutval", ret)
             code = self.tr_block(body, env, self.fn_mode)
             lret = "(" + self.lean_ty(env["self"][1]) + " × " + self.lean_ty(ret) + ")"
@@ -1736,7 +1880,8 @@ class Translator:
         lines = [f"/-- `{f.rust_name}` -/", head] + self.body_lines(code, "  ", not pure)
         # the callee analysis of this function is finished: restore nothing (state is per call)
         return dict(text="\n".join(self.aux + ["\n".join(lines)]), pure=pure, ret=ret, fn=f, fuel=self.uses_fuel,
-                    opaque=list(self.uses_opaque), mutval=(f.selfk == "mut" and ret != "()"))
+                    opaque=list(self.uses_opaque), mutval=(f.selfk == "mut" and ret != "()"),
+                    mutparams=list(f.mutparams))
 
     def register_locals(self, f, body):
         """nested fn items and `use` declarations of a function body"""
@@ -1815,6 +1960,8 @@ class Translator:
         parts = []
         if self.tvars: parts.append("{" + " ".join(self.tvars) + " : Type}")
         parts += [f"({n} : {a} → {u})" for (u, a), n in self.convs.items()]
+        if self.scalar == "S" and scal:
+            parts = ["{α : Type} [C12.Scal α]"] + parts
         if self.cfg.get("eops"):
             parts = ["{α : Type} {m n : Nat} (e : C09.EOps α)"] + (["(dbg : Bool)"] if self.cfg.get("dbg_param") else []) + parts
         self.gsig = " ".join(parts)
@@ -1916,6 +2063,14 @@ class Translator:
                 self.last_ty = ty
                 return Code(list(its), ("pure", f"({env['self'][0]}, {unpar(term)})"))
             return True, k2
+        if mode[0] == "mutvalp":
+            def k3(its, term, ty, env):
+                if term is None: raise Unsupported("block without a value where one is needed")
+                if mode[1] is not None and not self.compat(mode[1], ty):
+                    raise Unsupported(f"value of type {ty} where {mode[1]} is expected")
+                self.last_ty = ty
+                return Code(list(its), ("pure", "(" + ", ".join([env[x][0] for x in mode[2]] + [unpar(term)]) + ")"))
+            return True, k3
         if mode[0] == "forbody":
             return False, (lambda its, term, ty, env: Code(list(its), ("pure", f"(Ctl.next {self.tup(env, mode[1])})")))
         raise AssertionError(mode)
@@ -1959,7 +2114,9 @@ class Translator:
                 for nm in ([st.name] if st.pat is None else [x for x, _ in st.pat]):
                     if nm != "_" and nm in rest_ids and nm in self.scope_outer:
                         raise Unsupported(f"`let {nm}` in a branch that is followed by code using an outer `{nm}` (line {st.line})")
+            self.cur_rest = (stmts[i + 1:], tail)
             items += self.tr_stmt(st, env)
+            self.cur_rest = None
         if tail is None:
             c = K[1]([], None, "()", env)
         else:
@@ -2201,7 +2358,7 @@ class Translator:
         if self.cfg.get("lmat"):
             block = N("block", stmts=self.fuse_views(list(block.stmts)), tail=block.tail,
                       uses=getattr(block, "uses", []), fns=getattr(block, "fns", []))
-        if self.has_jump(block) or mode[0] in ("mutval", "forbody"):
+        if self.has_jump(block) or mode[0] in ("mutval", "forbody", "mutvalp"):
             saved = self.scope_outer
             self.scope_outer = set(env)
             try:
@@ -2210,8 +2367,10 @@ class Translator:
                 self.scope_outer = saved
         env = dict(env)
         items = []
-        for st in block.stmts:
+        for k_, st in enumerate(block.stmts):
+            self.cur_rest = (block.stmts[k_ + 1:], block.tail)
             items += self.tr_stmt(st, env)
+            self.cur_rest = None
         tail = block.tail
         if mode[0] == "value":
             if tail is None:
@@ -2259,6 +2418,9 @@ class Translator:
                     i2, t, ty = self.tr(x, env)
                     its += i2; comps.append((t, ty))
                 return its + self.bind_components([(nm, m) for nm, m in st.pat], comps, env, st.line)
+            if self.cfg.get("csc") and st.pat is None and getattr(st, "els", None) is None:
+                r_ = self.tr_lazy_map(st, env)
+                if r_ is not None: return r_
             its, term, ty = self.tr(st.init, env)
             if getattr(st, "els", None) is not None:
                 # `let Some(x) = e else { diverges }`; here the else block panics (a jumping one is handled by seq_k)
@@ -2308,6 +2470,9 @@ class Translator:
             if e.el is None and sc_.kind == "mcall" and sc_.name == "as_mut" and not sc_.args:
                 return self.tr_iflet_mut(e, env)
             return self.tr_iflet_stmt(e, env)
+        if e.kind == "mcall" and self.cfg.get("csc"):
+            r_ = self.tr_vec_stmt(e, env)
+            if r_ is not None: return r_
         if e.kind == "mcall" and (e.name in MAT_MUT or e.name in LMAT_MUT):
             r_ = self.tr_mat_mut(e, env)
             if r_ is not None: return r_
@@ -2322,6 +2487,113 @@ class Translator:
             raise Unsupported(f"`{e.kind}` in this position (line {e.line})")
         its, term, ty = self.tr(e, env)       # evaluated for its panics only
         return its
+
+    def vec_place(self, recv, env):
+        """a mutable local / `&mut` parameter of list type that a `push` / `reverse` statement updates, or None"""
+        r = recv
+        while r.kind == "paren": r = r.e
+        if r.kind == "path" and len(r.segs) == 1 and r.segs[0] in env and env[r.segs[0]][2] and \
+                resolve_ty(env[r.segs[0]][1]).startswith("List<"):
+            return r.segs[0]
+        return None
+
+    def tr_vec_stmt(self, e, env):
+        """`v.push(x)`, `v.reverse()` on a list variable; `it.for_each(|p| body)` as a `for` loop"""
+        if e.name in ("push", "reverse"):
+            root = self.vec_place(e.recv, env)
+            if root is None: return None
+            ln, ty, _ = env[root]
+            if e.name == "reverse" and not e.args:
+                return [("let", ln, f"List.reverse {ln}")]
+            if e.name == "push" and len(e.args) == 1:
+                its, t, tx = self.tr(e.args[0], env)
+                if not self.compat(resolve_ty(ty)[5:-1], tx):
+                    raise Unsupported(f"`push` of {tx} onto a vector of {resolve_ty(ty)[5:-1]} (line {e.line})")
+                return its + [("let", ln, f"{ln} ++ [{unpar(t)}]")]
+            return None
+        if e.name == "for_each" and len(e.args) == 1 and e.args[0].kind == "closure" and len(e.args[0].params) == 1:
+            c = e.args[0]
+            p_ = c.params[0]
+            stmts = []
+            if isinstance(p_, tuple):
+                var = f"it_{e.line}"
+                stmts.append(N("let", name=None, mut=False, ty=None, init=N("path", segs=[var], line=e.line),
+                               line=e.line, pat=[(x, False) for x in p_], els=None))
+            else:
+                var = p_
+            b = c.body
+            if b.kind == "block": body = N("block", stmts=stmts + list(b.stmts), tail=b.tail, uses=[], fns=[])
+            else: body = N("block", stmts=stmts + [N("expr", e=b, line=e.line)], tail=None, uses=[], fns=[])
+            return self.tr_for(N("for", var=var, it=e.recv, body=body, line=e.line), env)
+        return None
+
+    def tr_lazy_map(self, st, env):
+        """`let cols = (lo..hi).map(|j| body)` whose body updates captured variables (a scratch buffer): the iterator is
+        lazy, so this is only translated when `cols` is consumed exactly once, completely, by the code that follows
+        (an argument of one of the target's `full_consumers`); then it is the sequential fold `Loop.mapRange`"""
+        init = st.init
+        while init.kind == "paren": init = init.e
+        if not (init.kind == "mcall" and init.name == "map" and len(init.args) == 1 and init.args[0].kind == "closure"):
+            return None
+        rng, c = init.recv, init.args[0]
+        while rng.kind == "paren": rng = rng.e
+        if rng.kind != "range" or len(c.params) != 1 or isinstance(c.params[0], tuple): return None
+        mv = self.mutated(c.body, env)
+        if not mv: return None
+        line = st.line
+        if self.has_jump(c.body): raise Unsupported(f"closure that jumps (line {line})")
+        rest = self.cur_rest
+        if rest is None: raise Unsupported(f"lazy `map` with a mutating closure in this position (line {line})")
+        uses = []
+
+        def find(n, parent):
+            if isinstance(n, (list, tuple)):
+                for v in n: find(v, parent)
+                return
+            if not isinstance(n, N): return
+            if n.kind == "path" and n.segs == [st.name]: uses.append(parent)
+            for v in n.__dict__.values(): find(v, n)
+        find(list(rest[0]), None); find(rest[1], None)
+        if len(uses) != 1 or uses[0] is None or uses[0].kind != "call" or \
+                uses[0].path[-1] not in self.cfg.get("full_consumers", []):
+            raise Unsupported(f"the lazy iterator `{st.name}` (its closure updates {', '.join(mv)}) is not consumed exactly once "
+                              f"by {' / '.join(self.cfg.get('full_consumers', []))} (line {line})")
+        for nm in mv:
+            if nm in self.idents(list(rest[0])) | self.idents(rest[1]):
+                raise Unsupported(f"`{nm}` is used while the lazy iterator `{st.name}` borrows it (line {line})")
+        i1, lo, tlo = self.tr(rng.lo, env)
+        i2, hi, thi = self.tr(rng.hi, env)
+        if tlo not in INT64 or thi not in INT64: raise Unsupported(f"range over {tlo}..{thi} (line {line})")
+        used = self.used(c.body, env)
+        ro = [n for n in env if n in used and n not in mv and n != c.params[0]]
+        self.nloop += 1
+        fname = f"{self.lean_fn(self.cur)}_closure{self.nloop}"
+        env2 = dict(env)
+        jv = self.ident(c.params[0])
+        env2[c.params[0]] = (jv, "usize", False)
+        saved = (self.fn_mode, self.uses_fuel)
+        self.uses_fuel = False
+        try:
+            body = c.body if c.body.kind == "block" else N("block", stmts=[], tail=c.body, uses=[], fns=[])
+            code = self.tr_block(body, env2, ("mutvalp", None, list(mv)))
+            cret = self.last_ty
+            fuel_here = self.uses_fuel
+        finally:
+            self.fn_mode, self.uses_fuel = saved[0], saved[1] or self.uses_fuel
+        sty = ("(" + " × ".join(self.lean_ty(env[x][1]) for x in mv) + ")") if len(mv) > 1 else self.lean_ty(env[mv[0]][1])
+        pat = self.tup(env, mv)
+        csig = " ".join(([self.gsig] if self.gsig else []) + (["(fuel : Nat)"] if fuel_here else []) +
+                        [f"({env[x][0]} : {unpar(self.lean_ty(env[x][1]))})" for x in ro] +
+                        [f"({jv} : Nat)", f"(st_ : {unpar(sty)})"])
+        code = Code([("let", pat, "st_")] + code.items, code.final)
+        lines = [f"/-- closure #{self.nloop} of `{self.cur.rust_name}` (captures: {', '.join(ro) or 'none'}; updates: {', '.join(mv)}) -/",
+                 f"def {fname} {csig} : Res ({unpar(sty)} × {self.lean_ty(cret)}) :="]
+        lines += self.body_lines(code, "  ", True)
+        self.aux.append("\n".join(lines) + "\n")
+        fcall = "(" + " ".join([fname] + self.gargs + (["fuel"] if fuel_here else []) + [env[x][0] for x in ro]) + ")"
+        ln = self.ident(st.name)
+        env[st.name] = (ln, f"List<{cret}>", False)
+        return i1 + i2 + [("bind", f"({pat}, {ln})", f"Loop.mapRange {lo} {hi} {fcall} {pat}")]
 
     def tr_mat_mut(self, e, env):
         """`place.swap_rows(i, j)` … on a matrix place (a field of a mutable struct variable, or a mutable local)"""
@@ -2577,14 +2849,20 @@ class Translator:
             if ta not in INT64: raise Unsupported(f"vector index (line {e.line})")
             its += i2
             idx, getf, setf = a, "LVec.get", "LVec.set"
+        elif pty == "VS":
+            i2, a, ta = self.tr(ix, env)
+            if ta not in INT64: raise Unsupported(f"vector index (line {e.line})")
+            its += i2
+            idx, getf, setf = a, "Buf.get", "Buf.set"
         else:
             raise Unsupported(f"assignment to an indexed place of type {pty} (line {e.line})")
+        sc = "S" if pty == "VS" else "Z"
         if e.op != "=":
             old = self.fresh()
             its = its + [("bind", old, f"{getf} {cur} {idx}")]
-            i4, v, tv = self.binop(e.op[:-1], old, "Z", v, tv, e.line)
+            i4, v, tv = self.binop(e.op[:-1], old, sc, v, tv, e.line)
             its += i4
-        if tv != "Z" and not (tv == "int" and re.fullmatch(r"\d+", v)): raise Unsupported(f"assignment of {tv} to an entry (line {e.line})")
+        if tv != sc and not (sc == "Z" and tv == "int" and re.fullmatch(r"\d+", v)): raise Unsupported(f"assignment of {tv} to an entry (line {e.line})")
         r = self.fresh()
         its = its + [("bind", r, f"{setf} {cur} {idx} {v}")]
         if field is None:
@@ -2658,18 +2936,27 @@ class Translator:
         while it.kind == "paren": it = it.e
         if it.kind == "mcall" and it.name == "rev" and not it.args:
             return self.tr_for_rev(e, it.recv, env, K)
-        if it.kind != "range": raise Unsupported(f"`continue`/`break` inside a `for` loop over a non-range (line {e.line})")
-        i1, lo, tlo = self.tr(it.lo, env)
-        i2, hi, thi = self.tr(it.hi, env)
-        if tlo not in INT64 or thi not in INT64: raise Unsupported(f"`for` over {tlo}..{thi} (line {e.line})")
+        elt = "usize"
+        if it.kind != "range":
+            if not self.cfg.get("csc"):
+                raise Unsupported(f"`continue`/`break` inside a `for` loop over a non-range (line {e.line})")
+            i1, xs, txs = self.tr(it, env)
+            txs = resolve_ty(txs)
+            if not txs.startswith("List<"): raise Unsupported(f"`for` over a value of type {txs} (line {e.line})")
+            i2, elt = [], txs[5:-1]
+        else:
+            i1, lo, tlo = self.tr(it.lo, env)
+            i2, hi, thi = self.tr(it.hi, env)
+            if tlo not in INT64 or thi not in INT64: raise Unsupported(f"`for` over {tlo}..{thi} (line {e.line})")
         st = [x for x in self.mutated(e.body, env) if x != e.var]
         used = self.used(e.body, env)
         ro = [n_ for n_ in env if n_ in used and n_ not in st and n_ != e.var]
         self.nloop += 1
+        num_ = self.nloop
         fname = f"{self.lean_fn(self.cur)}_for{self.nloop}"
         env2 = dict(env)
         lv = "x_" if e.var == "_" else self.ident(e.var)
-        if e.var != "_": env2[e.var] = (lv, "usize", False)
+        if e.var != "_": env2[e.var] = (lv, elt, False)
         saved = (self.for_ctx, self.loop_ctx, self.uses_fuel, self.scope_outer)
         fc = dict(st=st, outer_loop=self.loop_ctx, exits=False)
         self.for_ctx, self.loop_ctx, self.uses_fuel, self.scope_outer = fc, None, False, set(env)
@@ -2686,16 +2973,17 @@ class Translator:
         csig = " ".join(([self.gsig] if self.gsig else []) + [f"({o_} : {unpar(psty)} → Res {psty})" for o_ in opq] +
                         (["(fuel : Nat)"] if fuel_here else []) +
                         [f"({env[x][0]} : {unpar(self.lean_ty(env[x][1]))})" for x in ro] +
-                        [f"({lv} : Nat)", f"(st_ : {unpar(sty)})"])
+                        [f"({lv} : {unpar(self.lean_ty(elt))})", f"(st_ : {unpar(sty)})"])
         pre = [("let", pat, "st_")] if st else []
         body = Code(pre + body.items, body.final)
-        lines = [f"/-- body of the `for` loop #{self.nloop} of `{self.cur.rust_name}` (state: {', '.join(st) or 'none'}) -/",
+        lines = [f"/-- body of the `for` loop #{num_} of `{self.cur.rust_name}` (state: {', '.join(st) or 'none'}) -/",
                  f"def {fname} {csig} : Res (Ctl {sty}) :="]
         lines += self.body_lines(body, "  ", True)
         self.aux.append("\n".join(lines) + "\n")
         fcall = "(" + " ".join([fname] + self.gargs + opq + (["fuel"] if fuel_here else []) + [env[x][0] for x in ro]) + ")"
         fin = self.fresh()
-        items = i1 + i2 + [("bind", f"({pat if st else '_'}, {fin})", f"Loop.forRange {lo} {hi} {fcall} {pat if st else '()'}")]
+        loop_ = f"Loop.forRange {lo} {hi}" if it.kind == "range" else f"Loop.forList {xs}"
+        items = i1 + i2 + [("bind", f"({pat if st else '_'}, {fin})", f"{loop_} {fcall} {pat if st else '()'}")]
         if K is None:
             if fc["exits"]: raise Unsupported(f"jump out of a `for` loop in this position (line {e.line})")
             return items
@@ -2747,8 +3035,11 @@ class Translator:
         while it0.kind == "paren": it0 = it0.e
         if it0.kind == "range" or (it0.kind == "mcall" and it0.name == "rev" and not it0.args):
             return self.tr_for_range(e, env)
-        if self.has_jump(e): raise Unsupported(f"`return`/`continue`/`break` inside a `for` loop (line {e.line})")
+        if self.has_jump(e):
+            if self.cfg.get("csc"): return self.tr_for_range(e, env)
+            raise Unsupported(f"`return`/`continue`/`break` inside a `for` loop (line {e.line})")
         its, it, ity = self.tr(e.it, env)
+        ity = resolve_ty(ity)
         m = re.fullmatch(r"List<(.*)>", ity)
         if not m: raise Unsupported(f"`for` over a value of type {ity} (line {e.line})")
         st = self.mutated(e.body, env)
@@ -2858,6 +3149,17 @@ class Translator:
                     ty_ = env[root][1]
                     if n.kind == "iflet" or ty_ in ("LM",) or re.fullmatch(r"M<\w+,\w+>", ty_ or "") or ty_ in self.mod.structs:
                         found.add(root)
+            if n.kind == "mcall" and n.name in ("push", "reverse") and self.cfg.get("csc"):
+                r = n.recv
+                while r.kind == "paren": r = r.e
+                if r.kind == "path" and len(r.segs) == 1 and r.segs[0] in env and r.segs[0] not in local and \
+                        env[r.segs[0]][2] and resolve_ty(env[r.segs[0]][1] or "").startswith("List<"):
+                    found.add(r.segs[0])
+            if n.kind == "un" and n.op == "&mut":
+                r = n.e
+                while r.kind == "paren": r = r.e
+                if r.kind == "path" and len(r.segs) == 1 and r.segs[0] in env and r.segs[0] not in local:
+                    found.add(r.segs[0])
             if n.kind == "colswap":
                 try:
                     root, _ = self.place(n.place, {k: (k, None, True) for k in list(env) + list(local)})
@@ -2904,6 +3206,14 @@ class Translator:
             raise Unsupported(f"call of {callee.rust_name} with {len(args)} arguments (line {line})")
         its, out = [], []
         for a, (pn, pt) in zip(args, callee.params):
+            if pn in callee.mutparams:
+                x = a
+                while x.kind == "paren": x = x.e
+                if not (x.kind == "un" and x.op == "&mut" and x.e.kind == "path" and len(x.e.segs) == 1 and
+                        x.e.segs[0] in env and env[x.e.segs[0]][2]):
+                    raise Unsupported(f"argument for the `&mut` parameter `{pn}` of {callee.rust_name} is not `&mut x` "
+                                      f"with a mutable variable x (line {line})")
+                a = x.e
             i2, t, ty = self.tr(a, env)
             pt = self.norm_ty(pt, callee)
             if not self.compat(pt, ty):
@@ -2929,6 +3239,15 @@ class Translator:
         call = " ".join([self.lean_fn(callee)] + self.fuel_arg(info) + self.const_args(callee, line) +
                         ([recv] if recv is not None else []) + a)
         ret = info["ret"]
+        if info.get("mutparams"):
+            # the new values of the `&mut` arguments come back first
+            names = [a[[pn for pn, _ in callee.params].index(nm)] for nm in info["mutparams"]]
+            if len(set(names)) != len(names): raise Unsupported(f"one variable passed for two `&mut` parameters (line {line})")
+            if ret == "()":
+                pat = names[0] if len(names) == 1 else "(" + ", ".join(names) + ")"
+                return its + [("bind", pat, call)], "()", "()"
+            r = self.fresh()
+            return its + [("bind", "(" + ", ".join(names + [r]) + ")", call)], r, ret
         if info["pure"]:
             return its, (f"({call})" if " " in call else call), ret
         r = self.fresh()
@@ -3042,6 +3361,11 @@ class Translator:
                 if ta not in INT64: raise Unsupported(f"vector index of type {ta} (line {line})")
                 r = self.fresh()
                 return its + i2 + [("bind", r, f"LVec.get {t} {a}")], r, "Z"
+            if ty == "VS":
+                i2, a, ta = self.tr(ix, env)
+                if ta not in INT64: raise Unsupported(f"vector index of type {ta} (line {line})")
+                r = self.fresh()
+                return its + i2 + [("bind", r, f"Buf.get {t} {a}")], r, "S"
             if ty.startswith("(") and ix.kind == "int":
                 comps = split_top(ty[1:-1])
                 if ix.v < len(comps): return its, self.tuple_proj(t, ix.v, len(comps)), comps[ix.v]
@@ -3071,6 +3395,7 @@ class Translator:
             return its, f"{t}.{self.field_name(e.name)}", self.field_ty(ty, e.name, line)
         if k == "un":
             its, t, ty = self.tr(e.e, env)
+            if e.op == "&mut": raise Unsupported(f"`&mut` borrow expression (line {line})")
             if e.op in ("&", "*"): return its, t, ty          # references are erased (all types here are Copy)
             if e.op == "!":
                 if ty == "bool": return its, f"(!{t})", ty
@@ -3078,6 +3403,8 @@ class Translator:
                 raise Unsupported(f"`!` on {ty} (line {line})")
             if e.op == "-" and ty == "E":
                 return its, f"(e.neg {t})", ty
+            if e.op == "-" and ty == "S":
+                return its, f"(C12.Scal.neg {t})", ty
             if e.op == "-" and ty == "W":
                 r = self.fresh()
                 return its + [("bind", r, f"I32.neg {t}")], r, "W"
@@ -3167,6 +3494,11 @@ class Translator:
 
     def binop(self, op, a, ta, b, tb, line):
         """items, term, type of `a op b` for already translated pure operands"""
+        if "S" in (ta, tb):
+            if ta != tb: raise Unsupported(f"`{op}` on {ta}, {tb} (line {line})")
+            fn_ = {"+": "add", "-": "sub", "*": "mul"}.get(op)
+            if fn_: return [], f"(C12.Scal.{fn_} {a} {b})", "S"
+            raise Unsupported(f"`{op}` on ring elements (line {line})")
         if "E" in (ta, tb):
             if ta != tb: raise Unsupported(f"`{op}` on {ta}, {tb} (line {line})")
             f = {"+": "e.add", "-": "e.sub", "*": "e.mul", "/": "e.quo", "%": "e.rem"}.get(op)
@@ -3488,6 +3820,14 @@ class Translator:
             return [("bind", r, "Res.panic")], r, "!"
         if nm == "vec" and not e.args and self.cfg.get("hom"):
             return [], "[]", "List<_>"
+        if nm == "vec" and not e.args and self.cfg.get("csc"):
+            self.nty += 1
+            return [], "[]", f"List<?{self.nty}>"
+        if nm == "vec" and getattr(e, "repeat", False) and self.cfg.get("csc"):
+            i1, x, tx = self.tr(e.args[0], env)
+            i2, n_, tn = self.tr(e.args[1], env)
+            if tx != "S" or tn not in INT64: raise Unsupported(f"`vec![x; n]` with x : {tx}, n : {tn} (line {line})")
+            return i1 + i2, f"(Array.replicate {n_} {x})", "VS"
         raise Unsupported(f"macro `{nm}!` (line {line})")
 
     def tr_call(self, e, env):
@@ -3522,6 +3862,25 @@ class Translator:
                 if ta != "HM" or tb != "HM": raise Unsupported(f"`Trans::new` on {ta}, {tb} (line {line})")
                 r = self.fresh()
                 return i1 + i2 + [("bind", r, f"HTrans.new {a} {b}")], r, "HT"
+        if self.cfg.get("csc") and len(segs) == 2:
+            if segs[0] == "Either" and segs[1] in ("Left", "Right") and len(e.args) == 1:
+                return self.tr(e.args[0], env)            # both alternatives are iterators over the same items: a list
+            if self.aliases.get(segs[0]) == "S" and segs[1] in ("zero", "one") and not e.args:
+                return [], f"(C12.Scal.{segs[1]})", "S"
+            ats = [self.tr(x, env) for x in e.args]
+            its_ = [i for a_ in ats for i in a_[0]]
+            tms, tys = [a_[1] for a_ in ats], [resolve_ty(a_[2]) for a_ in ats]
+            if segs == ["SpMat", "id"] and len(tys) == 1 and tys[0] in INT64:
+                return its_, f"(SM.id {tms[0]})", "SM"
+            if segs == ["SpMat", "from_col_vecs"] and len(tys) == 2 and tys[0] in INT64 and tys[1] == "List<SV>":
+                r = self.fresh()
+                return its_ + [("bind", r, f"SM.from_col_vecs {tms[0]} {tms[1]}")], r, "SM"
+            if segs == ["SpVec", "from_sorted_entries"] and len(tys) == 2 and tys[0] in INT64 and \
+                    self.compat("List<(usize,S)>", tys[1]):
+                r = self.fresh()
+                return its_ + [("bind", r, f"SVec.from_sorted_entries {tms[0]} {tms[1]}")], r, "SV"
+            if segs[0] in ("SpMat", "SpVec", "Either"):
+                raise Unsupported(f"call of `{'::'.join(segs)}` on arguments of types {', '.join(tys)} (line {line})")
         if len(segs) == 1 and self.cfg.get("free_fns") and segs[0] not in env:
             c = [f for f in self.mod.fns if getattr(f, "is_free", False) and f.name == segs[0] and
                  (not getattr(self.cur, "is_free", False) or f.ty == self.cur.ty)]
@@ -3600,6 +3959,50 @@ class Translator:
                 return self.call_user(c, None, e.args, env, line)
         raise Unsupported(f"call of `{'::'.join(segs)}` (line {line})")
 
+    def tr_mcall_csc(self, e, env, i1, recv, rty):
+        """method calls on the CSC types of target option `csc` (None: not one of them)"""
+        line, name, na = e.line, e.name, len(e.args)
+        if rty == "S":
+            if na == 0:
+                if name == "is_zero": return i1, f"(C12.Scal.isZero {recv})", "bool"
+                if name == "inv": return i1, f"(C12.Scal.inv {recv})", "Option<S>"
+                if name == "clone": return i1, recv, rty
+        if rty == "SM":
+            if na == 0:
+                if name in ("nrows", "ncols"): return i1, f"(SM.{name} {recv})", "usize"
+                if name == "shape": return i1, f"(SM.shape {recv})", "(usize,usize)"
+                if name == "iter": return i1, f"(SM.iter {recv})", "List<(usize,usize,S)>"
+                if name == "transpose": return i1, f"(SM.transpose {recv})", "SM"
+            if name == "col_vec" and na == 1:
+                i2, a, ta = self.tr(e.args[0], env)
+                if ta not in INT64: raise Unsupported(f"`.col_vec` with an argument of type {ta} (line {line})")
+                return i1 + i2, f"(SM.col_vec {recv} {a})", "SV"
+            if name == "is_triang" and na == 1:
+                i2, a, ta = self.tr(e.args[0], env)
+                c = self.find_fn("TriangularType", "is_upper")
+                if ta != "TriangularType" or c is None: raise Unsupported(f"`.is_triang` with an argument of type {ta} (line {line})")
+                i3, up, _ = self.call_user(c, a, [], env, line)
+                return i1 + i2 + i3, f"(SM.is_triang {recv} {up})", "bool"
+        if rty == "SV" and na == 0:
+            if name == "iter": return i1, f"(SVec.iter {recv})", "List<(usize,S)>"
+            if name == "dim": return i1, f"(SVec.dim {recv})", "usize"
+            if name == "to_dense": return i1, f"(SVec.to_dense {recv})", "VS"
+        if rty == "VS" and na == 0:
+            if name in ("iter", "into_iter"): return i1, f"(Array.toList {recv})", "List<S>"
+            if name == "len": return i1, f"(Array.size {recv})", "usize"
+        if rty.startswith("List<"):
+            elt = rty[5:-1]
+            if na == 0:
+                if name == "enumerate": return i1, f"(Csc.enumerate {recv})", f"List<(usize,{elt})>"
+                if name == "rev": return i1, f"(List.reverse {recv})", rty
+                if name == "collect": return (i1, f"(List.toArray {recv})", "VS") if elt == "S" else (i1, recv, rty)
+                if name in ("iter", "into_iter", "cloned", "copied"): return i1, recv, rty
+            if name == "all" and na == 1 and e.args[0].kind == "closure":
+                cname, cargs, cret, mon = self.closure_def(e.args[0], [elt], env)
+                if mon or cret != "bool": raise Unsupported(f"`.all` with a closure that can panic / returns {cret} (line {line})")
+                return i1, "(List.all " + recv + " (" + " ".join([cname] + cargs) + "))", "bool"
+        return None
+
     def tr_mcall(self, e, env):
         line, name = e.line, e.name
         i1, recv, rty = self.tr(e.recv, env)
@@ -3671,6 +4074,10 @@ class Translator:
                 if ta not in INT64: raise Unsupported(f"`.row` with an argument of type {ta} (line {line})")
                 r = self.fresh()
                 return i1 + i2 + [("bind", r, f"LMat.row {recv} {a}")], r, "List<Z>"
+        if self.cfg.get("csc"):
+            rty = resolve_ty(rty)
+            r_ = self.tr_mcall_csc(e, env, i1, recv, rty)
+            if r_ is not None: return r_
         if rty == "HM":
             if not e.args:
                 if name == "nrows": return i1, f"(HMat.nrows {recv})", "usize"
@@ -3806,6 +4213,7 @@ def generate(src_text, src_label, target="bitseq"):
     texts = src_text if isinstance(src_text, list) else [src_text]
     toks, allids, mod = None, set(), None
     Parser.const_generics = bool(cfg.get("const_generics"))
+    Parser.turbofish = bool(cfg.get("csc"))
     srcs = cfg["src"] if isinstance(cfg["src"], list) else [cfg["src"]]
     for k_, text in enumerate(texts):
         toks = tokenize(text)
